@@ -21,16 +21,13 @@ func (e *Exec) mapUpdate(fr *Frame, st *State, in *ssa.MapUpdate) {
 	e.fail("map update not supported yet")
 }
 func (e *Exec) mapLookup(fr *Frame, st State, in *ssa.Lookup) []Outcome {
-	e.fail("map lookup not supported yet")
-	return nil
+	return e.mapLookupConst(fr, st, in)
 }
 func (e *Exec) rangeOp(fr *Frame, st *State, in *ssa.Range) Val {
-	e.fail("range not supported yet")
-	return nil
+	return e.rangeConst(fr, st, in)
 }
 func (e *Exec) nextOp(fr *Frame, st State, in *ssa.Next) []Outcome {
-	e.fail("next not supported yet")
-	return nil
+	return e.nextConst(fr, st, in)
 }
 type civil struct{ y, m, d *Term }
 
